@@ -128,8 +128,15 @@ func toyOkamoto(gl []uint64, prng *script) *P[okX, okW, okA, okS, okZ] {
 		PZ:    func(z okZ) []uint64 { return ints(z.Z.Components()) },
 		MkX:   func(v []uint64) okX { return must(okamoto.NewStatement[E, Sc](toy.FromLog(v[0]))) },
 		MkA:   func(v []uint64) okA { return &okamoto.Commitment[E, Sc]{A: toy.FromLog(v[0])} },
-		MkZ:   func(v []uint64) okZ { return &okamoto.Response[Sc]{Z: must(ring.New(scalars(v)...))} },
+		MkZ: func(v []uint64) okZ { // any arity: the decoder does not fix it either
+			rg := ring
+			if len(v) != len(gl) {
+				rg = must(constructions.NewFiniteDirectPowerRing(toy.NewScalarField(), uint(len(v))))
+			}
+			return &okamoto.Response[Sc]{Z: must(rg.New(scalars(v)...))}
+		},
 		NR:    len(gl),
+		ZArity: true,
 	}
 	p.FromW = func(w []uint64) (okX, okW) {
 		return must(okamoto.NewStatement[E, Sc](toy.FromLog(dot(gl, w)))), must(okamoto.NewWitness(scalars(w)...))
@@ -144,6 +151,19 @@ func toyOkamoto(gl []uint64, prng *script) *P[okX, okW, okA, okS, okZ] {
 	}
 	p.Extract = func(x okX, a okA, es []sigma.ChallengeBytes, zs []okZ) (okW, error) { return pr.Extract(x, a, es, zs) }
 	return p
+}
+
+// imgElem builds an element of G^len(v) (the module img when the arity matches).
+func imgElem(img *constructions.FiniteDirectPowerModule[*toy.Group, E, Sc], v []uint64) *constructions.FiniteDirectPowerModuleElement[E, Sc] {
+	m := img
+	if len(v) != 2 {
+		m = must(constructions.NewFiniteDirectPowerModule(toy.NewGroup(), uint(len(v))))
+	}
+	es := make([]E, len(v))
+	for i := range v {
+		es[i] = toy.FromLog(v[i])
+	}
+	return must(m.New(es...))
 }
 
 type toyCK = *indcpacom.CommitmentKey[*elgamal.PublicKey[E, Sc], *elgamal.Plaintext[E, Sc], *elgamal.Nonce[Sc], *elgamal.Ciphertext[E, Sc]]
@@ -170,10 +190,11 @@ func toyElcomop(xi uint64, prng *script) *P[ecX, ecW, ecA, ecS, ecZ] {
 		PA:    func(a ecA) []uint64 { return logs(a.A.Components()) },
 		PS:    func(s ecS) []uint64 { m, l := s.S.Components(); return []uint64{m.Log(), l.Int()} },
 		PZ:    func(z ecZ) []uint64 { m, l := z.Z.Components(); return []uint64{m.Log(), l.Int()} },
-		MkX:   func(v []uint64) ecX { return &elcomop.Statement[E, Sc]{X: must(img.New(toy.FromLog(v[0]), toy.FromLog(v[1])))} },
-		MkA:   func(v []uint64) ecA { return &elcomop.Commitment[E, Sc]{A: must(img.New(toy.FromLog(v[0]), toy.FromLog(v[1])))} },
+		MkX: func(v []uint64) ecX { return &elcomop.Statement[E, Sc]{X: imgElem(img, v)} },
+		MkA: func(v []uint64) ecA { return &elcomop.Commitment[E, Sc]{A: imgElem(img, v)} },
 		MkZ:   func(v []uint64) ecZ { return &elcomop.Response[E, Sc]{Z: must(pre.New(toy.FromLog(v[0]), toy.FromInt(v[1])))} },
 		NR:    2,
+		AArity: true,
 	}
 	p.FromW = func(w []uint64) (ecX, ecW) {
 		msg := must(indcpacom.NewMessage(must(elgamal.NewPlaintext[E, Sc](toy.FromLog(w[0])))))
